@@ -615,3 +615,29 @@ def run_bound_belief(prog, rep):
     if n < 4:
         raise AnalysisBroken('R-BOUNDBELIEF: only %d tested accesses found' % n)
     return rule
+
+
+def run_hydra_rank(prog, rep):
+    """Hydra resize of a fixed-rank container compares the rank of the whole requested shape with the container's rank: the
+    backend is later given the whole shape, so a shape that is only partly looked at sizes the buffer smaller than the transfer"""
+    rule = rep.rule('R-HYDRA-RANK', 'data_traits<fixed-rank container>::resize checks the rank of the requested shape itself (check_rank(dims.size())) before it sizes the container', floor=1)
+    n = 0
+    seen = set()
+    for f in sorted(prog.funcs.values(), key=lambda f: (f.file, f.line)):
+        if f.body is None or f.name != 'resize' or 'data_traits' not in (f.cls or '') or (f.file, f.line) in seen:
+            continue
+        cr = [c for c in f.calls() if (c.callee or {}).get('name') == 'check_rank']
+        if not cr:
+            continue
+        seen.add((f.file, f.line))
+        dp = [p for p in f.params if 'NDSize' in p['type']]
+        for c in cr:
+            n += 1
+            a = [x for x in real_args(c) if x is not None]
+            t = term(unwrap(a[0])) if a else None
+            ok = bool(dp) and t == ('m', 'size', ('v', dp[0]['lid'], dp[0]['name']))
+            rule.check(ok, '%s|check_rank' % re.sub(r'<.*', '<>', f.cls), rep.where(c), f.label(), 'check_rank(%s.size())' % (dp[0]['name'] if dp else '?'),
+                       'the rank check is applied to %s, not to the rank of the requested shape: a shape of another rank passes, the container is sized from a part of it and the transfer that follows uses the whole shape (heap overrun)' % (a[0].src(40) if a else '?'))
+    if n < 1:
+        raise AnalysisBroken('R-HYDRA-RANK: no check_rank call in a data_traits resize found')
+    return rule
